@@ -58,6 +58,22 @@ class SimFile(object):
     def fileno(self):
         return self.fd
 
+    def writelines(self, lines):
+        for line in lines:
+            self.write(line)
+
+    def tell(self):
+        return self.inode.size() + sum(len(p.encode("utf-8")) for p in self.buf)
+
+    def seek(self, offset, whence=0):      # the log files are only ever appended to
+        return self.tell()
+
+    def writable(self):
+        return True
+
+    def readable(self):
+        return True
+
     def close(self):
         if self.closed:
             return
@@ -68,6 +84,7 @@ class SimFile(object):
             self.fs.flushes.append((self.fs.nops - 1, self.path))
         self.closed = True
         self.fs.fds.pop(self.fd, None)
+        self.fs.fd_inode.pop(self.fd, None)
 
     def read(self, n=-1):
         return self.inode.text()
@@ -93,7 +110,20 @@ class SimPath(object):
             raise OSError(errno.ENOENT, "sim: no such file", path)
         return self.fs.files[path].size()
 
+    def isfile(self, path):
+        self.fs.op("isfile", path)
+        return path in self.fs.files
+
+    def isdir(self, path):
+        self.fs.op("isdir", path)
+        return path in self.fs.dirs
+
+    def lexists(self, path):
+        return self.exists(path)
+
     def __getattr__(self, name):       # pure path functions
+        if name in ("getmtime", "getatime", "getctime", "samefile", "islink", "ismount", "realpath"):
+            raise AttributeError("SimFS has no os.path.%s" % name)
         return getattr(_os.path, name)
 
 
@@ -104,6 +134,7 @@ class SimFS(object):
         self.files = {}
         self.dirs = set(["/"])
         self.fds = {}
+        self.fd_inode = {}         # a descriptor names an inode, not a path (it survives a rename of its file)
         self.next_fd = 10
         self.nops = 0
         self.kill_at = kill_at
@@ -162,6 +193,7 @@ class SimFS(object):
         fd = self.next_fd
         self.next_fd += 1
         self.fds[fd] = path
+        self.fd_inode[fd] = self.files[path]
         return fd
 
     def fdopen(self, fd, mode="r", *a, **k):
@@ -189,6 +221,7 @@ class SimFS(object):
         fd = self.next_fd
         self.next_fd += 1
         self.fds[fd] = path
+        self.fd_inode[fd] = self.files[path]
         return SimFile(self, path, self.files[path], fd)
 
     def rename(self, old, new):
@@ -211,15 +244,73 @@ class SimFS(object):
         if self.dead:
             return
         path = self.fds.get(fd)
-        if path in self.files:
-            ino = self.files[path]
+        ino = self.fd_inode.get(fd)
+        if ino is not None:
             ino.synced = len(ino.data)
+            for pth, i2 in self.files.items():      # report the file under its current name
+                if i2 is ino:
+                    path = pth
+                    break
         self.fsync_log.append((self.nops - 1, path))
         self.fsync_times.append((getattr(self, "deaths", 0), self.clock() if self.clock else None, path))
         self.fsyncs += 1
 
     def close(self, fd):
         self.fds.pop(fd, None)
+        self.fd_inode.pop(fd, None)
+
+    def fdatasync(self, fd):
+        return self.fsync(fd)
+
+    def replace(self, old, new):
+        return self.rename(old, new)
+
+    def _stat(self, ino):
+        import collections
+        St = collections.namedtuple("stat_result", "st_mode st_size st_nlink")
+        return St(0o100644, ino.size(), 1)
+
+    def fstat(self, fd):
+        self.op("fstat", self.fds.get(fd))
+        ino = self.fd_inode.get(fd)
+        if ino is None:
+            if self.dead:
+                return self._stat(Inode())
+            raise OSError(errno.EBADF, "sim: bad file descriptor")
+        return self._stat(ino)
+
+    def stat(self, path):
+        self.op("stat", path)
+        if path in self.files:
+            return self._stat(self.files[path])
+        if path in self.dirs:
+            import collections
+            return collections.namedtuple("stat_result", "st_mode st_size st_nlink")(0o040755, 0, 2)
+        if self.dead:
+            return self._stat(Inode())
+        raise OSError(errno.ENOENT, "sim: no such file", path)
+
+    def remove(self, path):
+        self.op("remove", path)
+        if self.dead:
+            return
+        if path not in self.files:
+            raise OSError(errno.ENOENT, "sim: no such file", path)
+        ino = self.files.pop(path)
+        if ino.data:
+            self.retired.append((path, "remove", ino))
+
+    def unlink(self, path):
+        return self.remove(path)
+
+    def listdir(self, path="."):
+        self.op("listdir", path)
+        pre = path.rstrip("/") + "/"
+        names = set()
+        for p in list(self.files) + list(self.dirs):
+            if p.startswith(pre) and p != pre:
+                names.add(p[len(pre):].split("/", 1)[0])
+        return sorted(names)
 
     def __getattr__(self, name):
         if name in ("sep", "linesep", "curdir", "getcwd", "environ", "errno", "fspath"):
@@ -231,6 +322,7 @@ class SimFS(object):
         self.dead = False
         self.kill_at = None
         self.fds = {}
+        self.fd_inode = {}
         self.deaths = getattr(self, "deaths", 0) + 1
 
     def snapshot(self):
